@@ -42,7 +42,7 @@ func init() {
 	core.Register(&core.Property{
 		ID:    "C10",
 		Level: "model_checking",
-		Rule: "complete guard table: patch package clause {absent,same,other} x line kind x for each of 2 paths patch-side form {absent,unnamed,named,metavariable,dot,blank} x file-side form {absent,unnamed,same name,other name,dot,blank} x import layout {alone,group,two blocks} x import on context/minus line x body kind; the reference table is transcribed from the statement; a slice of the table with the file spelling the guarded paths as raw and as escaped string literals; a slice of the table through the command line; 30 two-change patches (API and command line) in which an earlier (later) change establishes or destroys what the guarded change needs (package renamed, import added / dropped / replaced / named), guard evaluated when the change's turn comes; every file contains the code pattern; " +
+		Rule: "complete guard table: patch package clause {absent,same,other} x line kind x for each of 2 paths patch-side form {absent,unnamed,named,metavariable,dot,blank} x file-side form {absent,unnamed,same name,other name,dot,blank} x import layout {alone,group,two blocks} x import on context/minus line x body kind {expression, statement, declaration, one expression -> several statements, statements -> one expression}; the reference table is transcribed from the statement; a slice of the table with the file spelling the guarded paths as raw and as escaped string literals; a slice of the table through the command line; 38 two-change patches (API and command line) in which an earlier (later) change establishes or destroys what the guarded change needs (package renamed, import added / dropped / replaced / named), guard evaluated when the change's turn comes; every file contains the code pattern; " +
 			"non-trivial = at least one guard present on the patch side",
 		Assumptions: []string{"a path imported twice under different names in one file is not a row of the stated table and is not generated"},
 		Bounds: func(tier string) map[string]any {
@@ -56,10 +56,7 @@ func init() {
 }
 
 func c10Bodies(tier string) []string {
-	if tier == "thorough" {
-		return []string{"expr", "stmt", "decl"}
-	}
-	return []string{"expr"}
+	return []string{"expr", "stmt", "decl", "expr-to-stmts", "stmts-to-expr"}
 }
 
 func c10ImportSpec(form, name, path string) string {
@@ -111,6 +108,9 @@ func c10Gen(tier string, emit func(any)) {
 				}
 				for _, impLine := range []string{"ctx", "minus"} {
 					for _, layout := range []string{"alone", "group", "blocks"} {
+						if body != "expr" && tier != "thorough" && (layout != "alone" || pkgLine != "ctx") {
+							continue // quick: the other body kinds on a slice of the table
+						}
 						for _, clash := range []string{"", "identifier", "expression"} {
 							if clash != "" && (pkg == "" || impLine == "minus" || layout != "alone") {
 								continue
@@ -166,7 +166,12 @@ func c10SeqCases(emit func(any)) {
 		}
 		return s + "\nvar v = foo(1)\n\nfunc g() {\n\tprefoo(1)\n\tfmt.Pre(1)\n}\n"
 	}
-	main := func(guard string) string { return "@@\n@@\n" + guard + "\n-foo(1)\n+mark(1)\n" }
+	main := func(guard string) string {
+		if strings.HasPrefix(guard, "METAVAR") { // the name of the guarded import is an identifier metavariable in this change
+			return "@@\nvar yy identifier\n@@\n" + strings.TrimPrefix(guard, "METAVAR") + "\n-foo(1)\n+mark(1)\n"
+		}
+		return "@@\n@@\n" + guard + "\n-foo(1)\n+mark(1)\n"
+	}
 	type sc struct {
 		id, pre, guard, file string
 		expect             bool
@@ -178,6 +183,8 @@ func c10SeqCases(emit func(any)) {
 	replImp := "@@\n@@\n-import \"fmt\"\n+import \"x/y\"\n\n-fmt.Pre(1)\n+y.Pre(1)\n"
 	nameImp := "@@\n@@\n-import \"fmt\"\n+import ff \"fmt\"\n\n-fmt.Pre(1)\n+ff.Pre(1)\n"
 	noop := "@@\n@@\n-nothing(1)\n+nothing(2)\n"
+	mvGuard := "@@\nvar yy identifier\n@@\n import yy \"x/y\"\n\n-prefoo(1)\n+predone(1)\n"
+	litGuard := "@@\n@@\n import yy \"x/y\"\n\n-prefoo(1)\n+predone(1)\n"
 	cases := []sc{
 		{"pkg-renamed/new-name", renamePkg, " package b", file("a", `"fmt"`), true},
 		{"pkg-renamed/old-name", renamePkg, " package a", file("a", `"fmt"`), false},
@@ -192,6 +199,10 @@ func c10SeqCases(emit func(any)) {
 		{"import-replaced/new", replImp, " import \"x/y\"", file("a", `"fmt"`), true},
 		{"import-named/unnamed-guard", nameImp, " import \"fmt\"", file("a", `"fmt"`), false},
 		{"import-named/named-guard", nameImp, " import ff \"fmt\"", file("a", `"fmt"`), true},
+		{"same-import-metavar-then-literal/other-name", mvGuard, " import yy \"x/y\"", file("a", `"fmt"`, `zz "x/y"`) + "\nvar _ = zz.V\n", false},
+		{"same-import-metavar-then-literal/same-name", mvGuard, " import yy \"x/y\"", file("a", `"fmt"`, `yy "x/y"`) + "\nvar _ = yy.V\n", true},
+		{"same-import-literal-then-metavar/other-name", litGuard, "METAVAR import yy \"x/y\"", file("a", `"fmt"`, `zz "x/y"`) + "\nvar _ = zz.V\n", true},
+		{"same-import-literal-then-metavar/unnamed", litGuard, "METAVAR import yy \"x/y\"", file("a", `"fmt"`, `"x/y"`) + "\nvar _ = y.V\n", true},
 		{"noop-before/holds", noop, " import \"fmt\"", file("a", `"fmt"`), true},
 		{"noop-before/fails", noop, " package b", file("a", `"fmt"`), false},
 	}
@@ -215,6 +226,8 @@ var c10GuardedFirst = map[string]bool{
 	"import-dropped": true, "import-replaced/old": true, "import-replaced/new": false,
 	"import-named/unnamed-guard": true, "import-named/named-guard": false,
 	"noop-before/holds": true, "noop-before/fails": false,
+	"same-import-metavar-then-literal/other-name": false, "same-import-metavar-then-literal/same-name": true,
+	"same-import-literal-then-metavar/other-name": true, "same-import-literal-then-metavar/unnamed": true,
 }
 
 func c10Render(c *C10Case) {
@@ -255,6 +268,10 @@ func c10Render(c *C10Case) {
 		p.WriteString("-x := foo(1)\n+x := mark(1)\n")
 	case "decl":
 		p.WriteString("-var v = foo(1)\n+var v = mark(1)\n")
+	case "expr-to-stmts": // '-' is one expression, '+' several statements: the two sides are reconciled by the parser
+		p.WriteString("-foo(1)\n+mark(1)\n+more()\n")
+	case "stmts-to-expr":
+		p.WriteString("-x := foo(1)\n-_ = x\n+mark(1)\n")
 	}
 	c.Patch = p.String()
 
@@ -292,7 +309,7 @@ func c10Render(c *C10Case) {
 		}
 		s.WriteString(")\n")
 	}
-	s.WriteString("\nvar v = foo(1)\n\nfunc g() {\n\tx := foo(1)\n\t_ = x\n\tos.Exit(0)\n}\n")
+	s.WriteString("\nvar v = foo(1)\n\nfunc g() {\n\tx := foo(1)\n\t_ = x\n\tfoo(1)\n\tos.Exit(0)\n}\n")
 	c.File = s.String()
 
 	ok := c.PatchPkg == "" || c.PatchPkg == "a"
